@@ -102,6 +102,11 @@ func (m *C13Mon) OnBlock(blk *hist.Block) []Finding {
 			out = append(out, Finding{"C13", "C13/consumed-exceeds-pulled", fmt.Sprintf("block %d: %s is booked as distributed for the block, more than the amount pulled (%s)", blk.H, consumed, pulled)})
 		}
 		out = append(out, Finding{"COUNT", "observed:blocks-with-pulled-amount", ""})
+		// the node's own long-lived calculator (with whatever it has cached since it started) and a fresh one
+		// must pull the same amount: the per-block amount does not depend on when the node was started
+		if blk.Begin.RunPull != "" && blk.Begin.RunPull != blk.Begin.TwinPull {
+			out = append(out, Finding{"C13", "C13/restart/pulled-amount-depends-on-process-lifetime", fmt.Sprintf("block %d: this node pulls %s for the block, a node started right now would pull %s", blk.H, blk.Begin.RunPull, blk.Begin.TwinPull)})
+		}
 	}
 	// schedule bound: what was left of the year when the cycle began
 	py, cy := rewardYears(blk.Prev), rewardYears(blk.Cur)
